@@ -49,6 +49,10 @@ def StrictlyIncreasing : List Nat → Prop
   | [] => True
   | _ :: rest => ∀ dt ∈ rest, 0 < dt
 
+instance : ∀ l, Decidable (StrictlyIncreasing l)
+  | [] => isTrue trivial
+  | _ :: rest => inferInstanceAs (Decidable (∀ dt ∈ rest, 0 < dt))
+
 /-- number of runs in the half-open interval `[t, t + period)` -/
 def runsIn (tr : List Ev) (t len : Nat) : Nat :=
   tr.countP fun e => e.ran && decide (t ≤ e.ts) && decide (e.ts < t + len)
